@@ -680,7 +680,11 @@ impl Property for C05 {
                                 _ => None,
                             })
                         });
-                        match near_end {
+                        // the known final-second behaviour is triggered by a response read in the step of the removal
+                        let triggered = evs.iter().filter(|e| e.t == t && matches!(&e.ev, EvKind::Removed(_, i) if *i == inst_s)).any(|e| {
+                            tr.rx.iter().any(|r| r.d == d && r.step == Some(e.step) && r.msg.as_ref().map(|mm| mm.is_response()).unwrap_or(false))
+                        });
+                        match near_end.filter(|_| triggered) {
                             Some((ty, e)) => j.fail("C05-R4", format!("ServiceRemoved({}) at t={} although its PTR, an SRV and an address are all still live; its {} record is within the last second of its life (ends at t={})", inst_s, t, ty, e)),
                             None => j.fail("C05-R4", format!("ServiceRemoved({}) at t={} although its PTR, an SRV and an address are all live in the receive model and no record of it ended", inst_s, t)),
                         }
